@@ -1,6 +1,6 @@
 // REPLAY for property C09, harness k_prologue_done_forever (unit K-prologue, engine kani)
 // Failed obligations:
-//   OBL:prologue.wrong_trailer_is_adler32_mismatch [C09]  at miniz_oxide/src/inflate/core.rs:3340:13 in function inflate::core::verif_inflate_core::k_prologue_done_forever
+//   OBL:prologue.wrong_trailer_is_adler32_mismatch [C09]  at miniz_oxide/src/inflate/core.rs:3354:13 in function inflate::core::verif_inflate_core::k_prologue_done_forever
 // no-failing-input-found: the verifier reported the failed obligation without a concrete model.
 // Verifier output (tail):
 //   Check 3519: memcmp.pointer_dereference.4
@@ -55,10 +55,10 @@
 //    ** 1 of 2 cover properties satisfied
 //   
 //   Failed Checks: "OBL:prologue.wrong_trailer_is_adler32_mismatch [C09]"
-//    File: "miniz_oxide/src/inflate/core.rs", line 3340, in inflate::core::verif_inflate_core::k_prologue_done_forever
+//    File: "miniz_oxide/src/inflate/core.rs", line 3354, in inflate::core::verif_inflate_core::k_prologue_done_forever
 //   
 //   VERIFICATION:- FAILED
-//   Verification Time: 5.1077213s
+//   Verification Time: 12.574359s
 //   
 //   Manual Harness Summary:
 //   Verification failed for - inflate::core::verif_inflate_core::k_prologue_done_forever
